@@ -56,7 +56,7 @@ def patterns(maxlen):
 
 def bounds(tier, seed):
     return {"pattern_alphabet": SIGMA, "max_pattern_len": 4 if tier == "quick" else 7, "paragraph_menu": 12, "paragraph_sequences": 3,
-            "field_variants": 60, "paths_in_tree": len(PATHS), "fault_points": ["open(REUSE.toml, 'w')", "REUSE.toml is a directory", "REUSE.toml is a dangling symlink", "unlink(dep5)"]}
+            "field_variants": 72, "paths_in_tree": len(PATHS), "fault_points": ["open(REUSE.toml, 'w')", "REUSE.toml is a directory", "REUSE.toml is a dangling symlink", "unlink(dep5)"]}
 
 
 def cases(tier, seed):
@@ -76,7 +76,7 @@ def cases(tier, seed):
     for n in (1, 2, 3):
         for seq in itertools.product(opts, repeat=n):
             yield {"k": "paras", "seq": [list(x) for x in seq]}
-    for cop in ("one", "three", "hostile", "continuation", "dot-separated"):
+    for cop in ("one", "three", "hostile", "continuation", "dot-separated", "trailing-blanks"):
         for lic in ("id", "compound", "with-text"):
             for hdr in (True, False):
                 for comment in (True, False):
@@ -265,7 +265,8 @@ def ev_fields(c) -> R:
     cop = {"one": ["2001 Jane"], "three": ["2001 Jane", "2002-2004 John <john@example.com>", "Copyright (C) 2005 Acme, Inc."],
            "hostile": ["2001 \"Quoted\" Jane \\ backslash", "2002 Jürgen Müller 山田", "2003 Tab\there # hash"],
            # value starting on the continuation line; a lone '.' (deb822's empty line) between notices
-           "continuation": ["", "2001 Jane", "2002 John"], "dot-separated": ["2001 Jane", ".", "2002 John", ".", "2003 Acme"]}[c["cop"]]
+           "continuation": ["", "2001 Jane", "2002 John"], "dot-separated": ["2001 Jane", ".", "2002 John", ".", "2003 Acme"],
+           "trailing-blanks": ["2001 Jane  ", "2002 John \t", "  2003 Acme "]}[c["cop"]]
     lic = {"id": "MIT", "compound": "GPL-2.0-or-later AND (MIT OR 0BSD)", "with-text": "MIT\n Permission is hereby granted, free of charge\n .\n more text"}[c["lic"]]
     rec = dict(PATHS)
     rec[".reuse/dep5"] = dep5_text([(["*"], cop, lic, c["comment"]), (["src/*"], ["2010 Src"], "ISC", False)], header=c["hdr"])
@@ -391,7 +392,7 @@ def run(tier, seed):
         rule=("every dep5 pattern python-debian accepts over {a . / * ? \\} up to the length bound (and pairs of patterns of length <= 2): product of the "
               "python-debian matcher automaton and the converted REUSE.toml matcher automaton explored to a fixed point in both directions over realistic paths; "
               "all paths of length <= 3 and every counterexample replayed on the two real matchers; every sequence of <= 3 Files paragraphs over a 12-entry menu "
-              "and 60 field variants converted by the real command with lint --json compared before/after on a 12-path tree; 6 fault/refusal cells; "
+              "and 72 field variants converted by the real command with lint --json compared before/after on a 12-path tree; 6 fault/refusal cells; "
               "non-trivial = pattern has a wildcard or escape / more than one paragraph"),
         bounds=bounds(tier, seed),
         assumptions=["paths are realistic relative paths without whitespace (dep5 patterns are whitespace separated)",
